@@ -177,11 +177,13 @@ CreateLoanI(s, sym, amount) ==
                                                     paid |-> D0, cause |-> "none"])]]
 
 \* LoanManager.cancel_loan (rollback of an auto-borrow)
+\* the loan is closed first so that its own (minimum) interest no longer counts in the margin level of the state the
+\* account goes back to; if the update is refused all the same, it stays open
 CancelLoanI(s, j) ==
-  LET l == s.loans[j]
-      u == Update(s, Only(l.sym, -l.amount), D0, Only(l.sym, -l.amount)) IN
-  IF ~u.ok THEN u
-  ELSE [u EXCEPT !.s = [u.s EXCEPT !.loans[j].open = FALSE, !.loans[j].cause = "rollback"]]
+  LET l  == s.loans[j]
+      sc == [s EXCEPT !.loans[j].open = FALSE, !.loans[j].cause = "rollback"]
+      u  == Update(sc, Only(l.sym, -l.amount), D0, Only(l.sym, -l.amount)) IN
+  IF ~u.ok THEN [u EXCEPT !.s = s] ELSE u
 
 \* LoanManager.repay_loan
 RepayLoanI(s, j, cause) ==
